@@ -202,9 +202,16 @@ def build_local_fermionic_elements(terms, bases):
 
 
 def build_local_fermionic_dense(terms, bases, like="numpy"):
-    hij = ar.do("zeros", tuple(len(b) for b in bases) * 2, like=like)
+    elements = build_local_fermionic_elements(terms, bases)
 
-    for idx, val in build_local_fermionic_elements(terms, bases).items():
+    kwargs = {}
+    if any(isinstance(val, complex) for val in elements.values()):
+        # n.b. default (real) zeros would silently drop imaginary parts
+        kwargs["dtype"] = "complex128"
+
+    hij = ar.do("zeros", tuple(len(b) for b in bases) * 2, like=like, **kwargs)
+
+    for idx, val in elements.items():
         hij[idx] += val
 
     return hij
